@@ -550,6 +550,41 @@ def rule_r11(repo, run):
                   % attr, wl.loc(wcl))
 
 
+def rule_r12(repo, run, table):
+    R = run.rule("C18.R12", "a wrapper that reports one result has pushed one: every `..._result` entry of lua_statements pushes "
+                            "a value in its post_call (the wrapper of a function ends with `return 1`)")
+    n = 0
+    for name, e in sorted(table.resolve_all("c++").items()):
+        if not name.endswith("_result") or name.startswith("lua_mixin"):
+            continue
+        n += 1
+        post = " ".join(e.lines("post_call")) + " " + " ".join(e.lines("call"))
+        pushes = re.search(r"\{push_expr\}|lua_push\w+\s*\(|lua_setmetatable|lua_newuserdata", post) is not None
+        run.check(R, "lua_statements[%s]:pushes-result" % name, pushes,
+                  "the entry calls the function and pushes nothing; the wrapper still returns 1, so Lua takes whatever is on top of "
+                  "the stack (the caller's last argument) for the result", table.loc(e.raw))
+    run.floor(R, "result entries of lua_statements", n, 5)
+
+
+def rule_r13(repo, run):
+    R = run.rule("C18.R13", "a C library needs no conversion between the C++ and the C view of a value: where the Lua wrapper "
+                            "applies a typemap's c_to_cxx / cxx_to_c (C++ cast syntax), the language has been tested")
+    wl = repo.module("wrapl")
+    fn = wl.func("Wrapl.do_function")
+    n = 0
+    for c in ast.walk(fn):
+        if isinstance(c, ast.Call) and (pyflow.call_name(c) or "").endswith("wformat") and c.args \
+                and isinstance(c.args[0], ast.Attribute) and c.args[0].attr in ("c_to_cxx", "cxx_to_c"):
+            n += 1
+            atoms = pyflow.path_atoms(c, stop=fn, seg=ast.unparse)
+            guarded = any(("self.language == 'c'" in t and not pol) or ("self.language != 'c'" in t and pol)
+                          or ("self.language == 'cxx'" in t and pol) for t, pol in atoms)
+            run.check(R, "wrapl.Wrapl.do_function:%s-for-c-library" % c.args[0].attr, guarded,
+                      "`%s` is expanded whatever the language of the library: for `language: c` the cast it holds "
+                      "(`static_cast<int>(...)`) is written into a .c file" % ast.unparse(c.args[0]), wl.loc(c))
+    run.floor(R, "conversions between the C++ and C view in the Lua wrapper", n, 2)
+
+
 def run(repo, run, tier):
     tables.check_model_assumptions(repo)
     types = tables.TypeTable(repo)
@@ -564,3 +599,5 @@ def run(repo, run, tier):
     rule_r9(repo, run)
     rule_r10(repo, run)
     rule_r11(repo, run)
+    rule_r12(repo, run, tables.StatementTable(repo, "wrapl", "lua_statements"))
+    rule_r13(repo, run)
